@@ -159,15 +159,23 @@ for _p in ("C02", "C03", "C04", "C05", "C13", "C14", "C16"):
 
 # into_struct / extend_struct (src/parser.rs) are tied by translation too (C06rs.v): attached to the
 # checks whose theorems are stated about into_struct_ev / extend_struct_ev
+# ... and so are the event loop `build_struct` and the tag handling `parse_tag` (C08rs.v; shallow
+# translation by bin/translate_loop.py): with these the whole parser is a term translated from the
+# current source and proved equal to the model's
 for _p in ("C03", "C06", "C08", "C11"):
     _s = PROPS[_p]
-    _s["prop_files"] = _s.get("prop_files", [_p]) + ["C06rs"]
-    _s["translate"] = ",".join(x for x in [_s.get("translate"), "entry"] if x)
+    _s["prop_files"] = _s.get("prop_files", [_p]) + ["C06rs", "C08rs"]
+    _s["translate"] = ",".join(x for x in [_s.get("translate"), "entry", "loop"] if x)
+# C01 and C09 (first appearance in the documents) are stated about the parser's result as well
+for _p in ("C01", "C09"):
+    _s = PROPS[_p]
+    _s["prop_files"] = _s.get("prop_files", [_p]) + ["C06rs", "C08rs"]
+    _s["translate"] = ",".join(x for x in [_s.get("translate"), "entry", "loop"] if x)
 
 # C07 ("rendering any Ok result with any options returns"; "parsing and extending return Ok or Err"):
 # C09_source_to_serde_struct shows the translated renderer returns a value for every tree and option
 # (Some: no stuck primitive, the recursion bottoms out with fuel = number of elements), and the entry
 # points are total around the loop - its check re-proves both ties as well
 _s = PROPS["C07"]
-_s["prop_files"] = _s.get("prop_files", ["C07"]) + ["C09rs", "C06rs"]
-_s["translate"] = ",".join(x for x in [_s.get("translate"), "render", "entry"] if x)
+_s["prop_files"] = _s.get("prop_files", ["C07"]) + ["C09rs", "C06rs", "C08rs"]
+_s["translate"] = ",".join(x for x in [_s.get("translate"), "render", "entry", "loop"] if x)
